@@ -24,18 +24,25 @@ var (
 
 func loadKnown() {
 	known = map[string]Finding{}
-	b, err := os.ReadFile(filepath.Join(VerifDir(), "known_findings.json"))
-	if err != nil {
-		return
-	}
-	var f struct {
-		Findings []Finding `json:"findings"`
-	}
-	if json.Unmarshal(b, &f) != nil {
-		return
-	}
-	for _, x := range f.Findings {
-		known[x.Property+"/"+x.ID] = x
+	files := []string{filepath.Join(VerifDir(), "known_findings.json")}
+	// per-package fragments (harness/<pkg>/known_findings.fragment.json), consolidated into the
+	// main file when a package is integrated
+	more, _ := filepath.Glob(filepath.Join(VerifDir(), "harness", "*", "known_findings.fragment.json"))
+	files = append(files, more...)
+	for _, fn := range files {
+		b, err := os.ReadFile(fn)
+		if err != nil {
+			continue
+		}
+		var f struct {
+			Findings []Finding `json:"findings"`
+		}
+		if json.Unmarshal(b, &f) != nil {
+			continue
+		}
+		for _, x := range f.Findings {
+			known[x.Property+"/"+x.ID] = x
+		}
 	}
 }
 
